@@ -74,8 +74,17 @@ pub fn check_layout(module: &Module) -> Result<(), LayoutError> {
             None => return Err(LayoutError::UnknownLayout(loc)),
         };
 
-        layout_hlsl.size = layout_hlsl.size.next_multiple_of(layout_hlsl.align);
-        layout_metal.size = layout_metal.size.next_multiple_of(layout_metal.align);
+        layout_hlsl.size = match layout_hlsl.size.checked_next_multiple_of(layout_hlsl.align) {
+            Some(size) => size,
+            None => return Err(LayoutError::UnknownLayout(loc)),
+        };
+        layout_metal.size = match layout_metal
+            .size
+            .checked_next_multiple_of(layout_metal.align)
+        {
+            Some(size) => size,
+            None => return Err(LayoutError::UnknownLayout(loc)),
+        };
 
         if layout_hlsl.size != layout_metal.size {
             return Err(LayoutError::MismatchedLayout(
@@ -171,12 +180,13 @@ fn get_type_layout(module: &Module, ty: TypeId, mode: PackingMode) -> Option<Lay
             let mut layout = Layout { size: 0, align: 1 };
             for member in &def.members {
                 let member_layout = get_type_layout(module, member.type_id, mode)?;
-                layout.size = layout.size.next_multiple_of(member_layout.align);
-                layout.size += member_layout.size;
+                // A type that does not fit the 32-bit size has no layout we can describe
+                layout.size = layout.size.checked_next_multiple_of(member_layout.align)?;
+                layout.size = layout.size.checked_add(member_layout.size)?;
                 layout.align = layout.align.max(member_layout.align);
             }
             // A struct used as a member or array element occupies a multiple of its alignment
-            layout.size = layout.size.next_multiple_of(layout.align);
+            layout.size = layout.size.checked_next_multiple_of(layout.align)?;
             Some(layout)
         }
         TypeLayer::StructTemplate(_) => panic!("unexpected struct template"),
@@ -187,7 +197,7 @@ fn get_type_layout(module: &Module, ty: TypeId, mode: PackingMode) -> Option<Lay
         TypeLayer::Object(_) => None,
         TypeLayer::Array(ty, Some(count)) => {
             let mut layout = get_type_layout(module, ty, mode)?;
-            layout.size *= u32::try_from(count).unwrap();
+            layout.size = layout.size.checked_mul(u32::try_from(count).ok()?)?;
             Some(layout)
         }
         TypeLayer::Array(_, None) => None,
